@@ -298,6 +298,22 @@ func Render(src []Entity) string {
 			}
 			fmt.Fprintf(&sb, "!%s = !{%s}\n", e.N, strings.Join(ns, ", "))
 		case "md":
+			if e.Body == "di" {
+				fs := []string{"tag: DW_TAG_pointer_type"}
+				names := []string{"baseType", "scope"}
+				k := 0
+				for _, x := range e.Refs {
+					if x.RK == "m.difield" && k < len(names) {
+						fs = append(fs, names[k]+": "+mdID(x.To))
+						k++
+					}
+				}
+				if k == 0 {
+					fs = append(fs, "baseType: null")
+				}
+				fmt.Fprintf(&sb, "%s = !DIDerivedType(%s)\n", mdID(e.N), strings.Join(fs, ", "))
+				continue
+			}
 			var fs []string
 			for _, x := range e.Refs {
 				switch x.RK {
